@@ -16,6 +16,7 @@ import BevySyncModel.Slice.Ent
 import BevySyncModel.Slice.Conn
 import BevySyncModel.Slice.Asset
 import BevySyncModel.Slice.Mat
+import BevySyncModel.Slice.Mark
 /-! `bsmodel`: runs the executable model definitions on the cases the Rust harness prints, one line
 in, one line out (`ok <id>` / `MISMATCH <id> <what>`).  Lines starting with `#` are ignored.
 Only model files are imported (no proofs, no Mathlib), so this links as a native executable.
@@ -734,6 +735,18 @@ def checkMat (toks : List String) : String :=
       go s0 0 (script.splitOn ";")
   | _ => "MISMATCH parse mat"
 
+/-! ### values carried at mark time (C02): `mark <id> <legacy> <before> <frames> <announced>` -/
+def checkMark (toks : List String) : String :=
+  match toks with
+  | [lg, bf, n, obs] =>
+    match n.toNat?, obs.toNat? with
+    | some n, some obs =>
+      let m := (Mark.run (lg == "1") (bf == "1") {} n).announced
+      if m == obs then "ok"
+      else s!"MISMATCH mark: the model announces the value carried at mark time {m} time(s) within {n} frames, the implementation {obs} time(s)"
+    | _, _ => "MISMATCH parse mark"
+  | _ => "MISMATCH parse mark"
+
 def handle (st : DState) (line : String) : DState × Option String :=
   let line := line.trimAscii.toString
   if line.isEmpty || line.startsWith "#" then (st, none)
@@ -764,6 +777,7 @@ def handle (st : DState) (line : String) : DState × Option String :=
         | "conn" => checkConn rest
         | "asset" => checkAsset rest
         | "mat" => checkMat rest
+        | "mark" => checkMark rest
         | _ => "MISMATCH unknown line kind"
       (st, some s!"{r} {id}")
     | _ => (st, some "MISMATCH parse ?")
